@@ -161,6 +161,22 @@ CLAIMED = {
              "same results' follows only under that assumption. register_allocator is treated as configuration "
              "performed before threads start.",
     ),
+    "C16": dict(
+        category="other",
+        design_ref="DESIGN.md section 3 / C16",
+        technique="static analysis: comparison-only truth table of contains(); finite evaluation of the hardware-address "
+                  "parser's character tests over all 256 byte values; structural rules on operators, hashes, inet_pton "
+                  "gating and mask helpers over the clang AST/CFG",
+        text="NARROW claim. Decides: (R1) AddressRange::contains(x) equals first <= x <= last on every ordering (the "
+             "address is touched only through < and ==) and the constructor throws exactly when last < first; (R2) the six "
+             "comparison operators of IPv4Address, IPv6Address, HWAddress<6> are one order over the same storage; (R3) each "
+             "std::hash specialisation reads only the address value; (R4) inet_pton's result gates success and the other "
+             "edge throws; the hardware parser's per-character classification, evaluated for all 256 byte values, accepts "
+             "exactly the hex digits with their values and ':'; (R5) range ends are address AND mask / address OR NOT mask.",
+        note="NOT decided: IPv4/IPv6 text round trip (delegated to inet_pton/ntop), agreement of < with numeric byte order "
+             "(IPv4 host-order storage), prefix-length masks at /0,/31,/32,/127,/128, group structure of the hardware "
+             "grammar, iteration/termination at the all-ones address - value-level.",
+    ),
     "C19": dict(
         category="other",
         design_ref="DESIGN.md section 3 / C19",
